@@ -12,6 +12,7 @@ pub struct NameMap {
 pub enum NameSymbol {
     Struct(StructId),
     Enum(EnumId),
+    EnumValue(EnumValueId),
     GlobalVariable(GlobalId),
     Function(FunctionId),
     Namespace(NamespaceId),
@@ -81,6 +82,18 @@ impl NameMap {
                 .entry(def.name.node.clone())
                 .or_default();
             name_vec.push(NameSymbol::Enum(id));
+
+            // The values of an enum are also visible in the scope that contains the enum
+            // They are named in that scope so they avoid reserved names and the names generated for other symbols
+            for value_id in module.enum_registry.get_values(id) {
+                let value = module.enum_registry.get_enum_value(*value_id);
+                let name_vec = scopes
+                    .get_mut(&def.namespace)
+                    .unwrap()
+                    .entry(value.name.node.clone())
+                    .or_default();
+                name_vec.push(NameSymbol::EnumValue(*value_id));
+            }
         }
 
         for i in 0..module.global_registry.len() {
